@@ -121,6 +121,24 @@ def gen_cases(chk):
                 cfg = "szMode=SZ_BEST_SPEED" + (";quantization_intervals=%d" % q if q else "")
                 cases.append("rtr %x %s %s 0 %s %s 0 %s x:%s" % (ty, tup5(t), tup5(t), dbits(float(e)), dbits(1e-3), cfg,
                                                                ",".join("%x" % enc(ty, v) for v in vals)))
+    # the quantiser's case split: a prediction error of exactly (intervals-1)*e, one below and one above, in both directions
+    # (a plateau, one jump of that size, a second plateau: every predictor of every rank predicts the plateau value)
+    for ty in range(2, 10):
+        lo, hi = tmin(ty), tmax(ty)
+        for t in ((96,), (8, 12), (4, 4, 6)):
+            n = 1
+            for v in t:
+                n *= v
+            for q, e in ((32, 1), (32, 2), (256, 1)) if W[ty] > 8 else ((32, 1), (32, 2), (4, 3)):
+                r = (q - 1) * e
+                for d in (r, -r, r - 1, -(r - 1), r + 1, -(r + 1)):
+                    c = lo + (hi - lo) // 2
+                    if not (lo <= c + d <= hi):
+                        continue
+                    k = n // 2 + 1
+                    vals = [c] * k + [c + d] * (n - k)
+                    cases.append("rtr %x %s %s 0 %s %s 0 szMode=SZ_BEST_SPEED;quantization_intervals=%d x:%s" % (ty, tup5(t), tup5(t), dbits(float(e)), dbits(1e-3), q,
+                                                                                                           ",".join("%x" % enc(ty, v) for v in vals)))
     # range-relative bounds and the wrapped modes on generated data in the safe zone (oracle only)
     for t in [(500,), (40, 30), (9, 10, 11), (3, 4, 5, 6)] + ([(20000,), (150, 150), (30, 30, 30)] if thorough else []):
         n = 1
